@@ -54,7 +54,7 @@ fn normalize(p: &Path) -> PathBuf {
 
 /// The files a source consists of, relative to the corpus root, sorted.
 pub fn closure(source_rel: &str) -> Vec<String> {
-    if source_rel.starts_with('/') || source_rel.starts_with("gen:") {
+    if source_rel.starts_with('/') || source_rel.starts_with("gen:") || source_rel.starts_with("extra:") {
         // not part of the corpus tree that gets copied and corrupted
         return Vec::new();
     }
